@@ -84,6 +84,13 @@ func NewFakeP4(p4infoPath string) (*FakeP4, error) {
 	return &FakeP4{info: info, tables: map[string]*P4Entry{}, meters: map[[2]uint64][4]int64{}}, nil
 }
 
+// SetCounterSize makes the served P4Info declare `n` cells for every indirect counter (a smaller pipeline)
+func (f *FakeP4) SetCounterSize(n int64) {
+	for _, c := range f.info.Counters {
+		c.Size = n
+	}
+}
+
 func (f *FakeP4) Start() error {
 	l, err := net.Listen("tcp", "127.0.0.1:0")
 	if err != nil {
